@@ -200,9 +200,19 @@ impl<'a, F: Family> Cx<'a, F> {
                 if !F::P::can_make(1) {
                     return Skipped;
                 }
-                let arc: Arc<F::P> = tracked(Arc::default);
-                let id = arc.raw();
-                self.finish_sized_p(dst, Handle::ArcP(arc), id, &what, false)
+                // `P::default()` is user code called by the library: it may panic (fault class
+                // `default`); nothing has been built then and nothing may be destroyed
+                match guarded(|| tracked(Arc::<F::P>::default)) {
+                    Ok(arc) => {
+                        let id = arc.raw();
+                        self.finish_sized_p(dst, Handle::ArcP(arc), id, &what, false)
+                    }
+                    Err(p) => {
+                        self.classify_panic(&what, &p, false);
+                        drop(p);
+                        Done(Exp { unwound: Some((vec![], 0, true)), ..Exp::default() })
+                    }
+                }
             }
             OpCode::NewQ => {
                 if !F::Q::can_make(1) {
@@ -283,6 +293,22 @@ impl<'a, F: Family> Cx<'a, F> {
                             expect = Expect::Panic;
                             leak_ok = true;
                             probes::hit(if l > n { P_LIE_OVER } else { P_LIE_UNDER });
+                        }
+                        // answers that change between calls: how often len() is consulted is an
+                        // implementation detail, so a refusal and (when only honest answers were
+                        // used) a correct result are both in order; wrong contents never are
+                        let changing = match regime {
+                            5 => Some(vec![n, n + 1]),
+                            6 => Some(vec![n + 1, n]),
+                            7 if n >= 1 => Some(vec![n - 1, n]),
+                            8 if n >= 1 => Some(vec![n, n - 1]),
+                            _ => None,
+                        };
+                        if let Some(s) = changing {
+                            it = it.with_len_script(s);
+                            expect = Expect::Either;
+                            leak_ok = true;
+                            probes::hit(P_LIE_CHANGING);
                         }
                     }
                     OpCode::FatIter => {
@@ -803,7 +829,12 @@ impl<'a, F: Family> Cx<'a, F> {
             (OpCode::FromRaw, Handle::RawDyn(p)) => Handle::DynP(unsafe { Arc::from_raw(p.0) }),
             (OpCode::FromRaw, Handle::RawThin(p)) => Handle::Thin(unsafe { ThinArc::from_raw(p.0) }),
             (OpCode::FromRawAsDyn, Handle::RawP(p)) => {
-                let d: *const dyn Probe = p.0 as *const F::P as *const dyn Probe;
+                let d: *const dyn Probe = if op.c % 2 == 1 {
+                    // through the subtrait and up again: another vtable, the same allocation
+                    p.0 as *const F::P as *const dyn crate::handle::ProbeSub as *const dyn Probe
+                } else {
+                    p.0 as *const F::P as *const dyn Probe
+                };
                 Handle::DynP(unsafe { Arc::from_raw(d) })
             }
             #[cfg(feature = "cfg_a")]
